@@ -155,20 +155,22 @@ Arguments Panic {A} s.
 Definition rbind {A B} (r : res A) (f : A -> res B) : res B :=
   match r with Ok a => f a | Panic s => Panic s end.
 
-Fixpoint rmap {A B} (f : A -> res B) (l : list A) : res (list B) :=
-  match l with
-  | [] => Ok []
-  | x :: r => rbind (f x) (fun y => rbind (rmap f r) (fun ys => Ok (y :: ys)))
-  end.
+Definition rmap {A B} (f : A -> res B) : list A -> res (list B) :=
+  fix go (l : list A) : res (list B) :=
+    match l with
+    | [] => Ok []
+    | x :: r => rbind (f x) (fun y => rbind (go r) (fun ys => Ok (y :: ys)))
+    end.
 
-Fixpoint omap {A B} (f : A -> option B) (l : list A) : option (list B) :=
-  match l with
-  | [] => Some []
-  | x :: r => match f x with
-              | None => None
-              | Some y => match omap f r with None => None | Some ys => Some (y :: ys) end
-              end
-  end.
+Definition omap {A B} (f : A -> option B) : list A -> option (list B) :=
+  fix go (l : list A) : option (list B) :=
+    match l with
+    | [] => Some []
+    | x :: r => match f x with
+                | None => None
+                | Some y => match go r with None => None | Some ys => Some (y :: ys) end
+                end
+    end.
 
 (** ** Induction principle and size *)
 
